@@ -32,7 +32,7 @@ EVIDENCE = os.environ.get("VERIF_EVIDENCE_DIR") or os.path.join(VERIF, "evidence
 KNOWN_FINDINGS = os.path.join(VERIF, "known_findings.txt")
 
 MAX_VIOLATIONS = 20
-MAX_SAMPLES = 4
+MAX_SAMPLES = 6
 
 
 class Inconclusive(Exception):
@@ -95,6 +95,9 @@ class Ctx:
         self.case = None
         self._sample_every = 1
         self._fallback_sample = None
+        self._begins = 0
+        self._explicit = 0
+        self._kinds = set()
 
     # -- per case -----------------------------------------------------------
     def begin(self, case, nontrivial=True, sample=None):
@@ -105,11 +108,22 @@ class Ctx:
             self._fallback_sample = clip(sample if sample is not None else case)
         if nontrivial:
             self.digests.add(digest64(case))
-        if len(self.samples) < MAX_SAMPLES and nontrivial:
-            n = self.evaluations
-            if n >= self._sample_every:
-                self._sample_every = max(n * 7, 2)
+        if len(self.samples) < MAX_SAMPLES - 2 and nontrivial:
+            # one sample per kind of case first, then a thinning series
+            self._begins += 1
+            n = self._begins
+            kind = case.get("kind") if isinstance(case, dict) else None
+            fresh_kind = kind is not None and kind not in self._kinds
+            if fresh_kind or (n >= self._sample_every and len(self._kinds) <= 1):
+                self._kinds.add(kind)
+                self._sample_every = max(n * 5, 2)
                 self.samples.append(clip(sample if sample is not None else case))
+
+    def add_sample(self, obj):
+        """An explicitly chosen sample (members of enumerated blocks are not registered one by one)."""
+        if self._explicit < 2 and len(self.samples) < MAX_SAMPLES:
+            self._explicit += 1
+            self.samples.append(clip(obj))
 
     def feat(self, name, n=1):
         self.features[name] += n
